@@ -51,8 +51,36 @@ template <class GC, int O> struct li_traits : public order_traits<ci::lazy_list:
     typedef ci::lazy_list::base_hook<cds::opt::gc<GC>> hook;
     typedef idisposer disposer;
 };
+// IterableList allocates its nodes itself and deletes a node whose link CAS failed: with malloc the next node would
+// reuse that address and the canonical object ids of the event log would depend on the allocator.  The harness gives
+// the list an allocator that never reuses memory (chunks are kept until the process ends), matching the never-reusing
+// allocator of the step model LV.Model.IterList.
+template <class T> struct bump_alloc {
+    typedef T value_type;
+    template <class U> struct rebind { typedef bump_alloc<U> other; };
+    bump_alloc() noexcept {}
+    template <class U> bump_alloc( bump_alloc<U> const& ) noexcept {}
+    static char*& cur() { static char* p = nullptr; return p; }
+    static char*& end() { static char* p = nullptr; return p; }
+    static std::mutex& mtx() { static std::mutex m; return m; }
+    T* allocate( size_t n, void const* = nullptr )
+    {
+        std::lock_guard<std::mutex> g( mtx());
+        size_t sz = ( n * sizeof( T ) + 15 ) & ~size_t( 15 );
+        if ( cur() == nullptr || cur() + sz > end()) {
+            size_t chunk = sz > ( 1u << 20 ) ? sz : ( 1u << 20 );
+            cur() = static_cast<char*>( ::operator new( chunk )); end() = cur() + chunk;
+        }
+        char* r = cur(); cur() += sz;
+        return reinterpret_cast<T*>( r );
+    }
+    void deallocate( T*, size_t ) noexcept {}
+    template <class U> bool operator==( bump_alloc<U> const& ) const { return true; }
+    template <class U> bool operator!=( bump_alloc<U> const& ) const { return false; }
+};
 template <int O> struct ii_traits : public order_traits<ci::iterable_list::traits, OPT_CMP( O ), OPT_IC( O )> {
     typedef idisposer disposer;
+    typedef bump_alloc<int> node_allocator;
 };
 template <class GC, int O, class Smr> using MI = intrusive_adapter<ci::MichaelList<GC, mitem<GC>, mi_traits<GC, O>>, mitem<GC>, Smr, false>;
 template <class GC, int O, class Smr> using LI = intrusive_adapter<ci::LazyList<GC, litem<GC>, li_traits<GC, O>>, litem<GC>, Smr, false>;
